@@ -14,6 +14,15 @@ from contracts import common as K
 from contracts import envs as E
 
 ENV = "Snake"
+
+
+def configs(tier):
+    out = E.configs(ENV, "quick")  # 3x3, 3x4, 4x3
+    if tier != "quick":
+        from jumanji.environments import Snake
+
+        out = {**out, "4x4": lambda: Snake(4, 4, time_limit=7), "2x5": lambda: Snake(2, 5, time_limit=7)}
+    return out
 MOVES = ((-1, 0), (0, 1), (1, 0), (0, -1))
 
 
@@ -86,7 +95,14 @@ def obs_clauses(env, s, o, prefix, ok=None):
     f = lambda b: jnp.where(b, 1.0, 0.0)
     N = env.num_rows * env.num_cols
     # norm plane ("a float between 0. and 1. for each body cell in the decreasing order from head to tail"): segment k of a
-    # snake of length L shows k/L (head 1.0), empty cells 0.  One obligation per (L, cell): the divisor is then a constant.
+    # snake of length L shows k/L (head 1.0), empty cells 0.  Proved in two parts: the plane is body_state divided by its
+    # maximum (or by 1 on an empty board), and that maximum is the length (an integer fact, from the body-chain invariant).
+    # On the 3x3 board the statement `plane == body_state / L` is also proved directly, one obligation per (L, cell), the
+    # divisor being then a constant (symbolic/symbolic division is non-linear: 1-3 s per obligation).
+    bmax = jnp.maximum(1, jnp.max(s.body_state))
+    norm_view = g[..., 4] == s.body_state / bmax
+    max_is_length = bmax == s.length
+    direct = N <= 9
     norm_ok = jnp.stack([(s.length != L) | (g[..., 4] == s.body_state.astype(jnp.float32) / jnp.float32(L)) for L in range(1, N + 1)])
     legal_move = jnp.asarray(True) if ok is None else ok
     out = {
@@ -95,7 +111,9 @@ def obs_clauses(env, s, o, prefix, ok=None):
         prefix + "obs.head_plane": ~legal_move | (g[..., 1] == f(head)),
         prefix + "obs.tail_plane": g[..., 2] == f(tail),
         prefix + "obs.fruit_plane": g[..., 3] == f(fruit),
-        prefix + "obs.norm_body_state_plane": ~legal_move | norm_ok,
+        prefix + "obs.norm_body_state_plane_is_body_state_over_its_maximum": norm_view,
+        prefix + "obs.norm_body_state_maximum_is_the_length": ~legal_move | max_is_length,
+        **({prefix + "obs.norm_body_state_plane": ~legal_move | norm_ok} if direct else {}),
         prefix + "obs.step_count": o.step_count == s.step_count,
         prefix + "obs.action_mask": o.action_mask == s.action_mask,
     }
